@@ -497,7 +497,34 @@ class AwareASTNode(DataClassSerializeMixin):
 
         return None
 
+    def _check_attach(
+        self, operation: t.Literal["create", "attach", "replace"]
+    ) -> tuple[AwareASTNode, AwareASTNode] | None:
+        """Dry run of `_attach_inner`: the same checks in the same order, changing nothing."""
+        if self.id in AwareASTNode._nodes:
+            raise ASTNodeRegistryCollisionError(
+                new_node=self,
+                existing_node=AwareASTNode._nodes[self.id],
+                operation=operation,
+            )
+
+        for c in self.get_child_nodes():
+            if c.detached:
+                if (ret := c._check_attach(operation=operation)) is not None:
+                    return ret
+            elif not c.is_attached_root:
+                assert c.parent is not None
+                return (c, c.parent)
+
+        return None
+
     def _attach(self, operation: t.Literal["create", "attach", "replace"]) -> None:
+        # Check the whole subtree first: a rejected attach must not leave some of the
+        # children re-parented and registered
+        if (ret := self._check_attach(operation=operation)) is not None:
+            c, p = ret
+            raise ASTNodeParentCollisionError(self, c, p)
+
         if (ret := self._attach_inner(operation=operation)) is not None:
             c, p = ret
             raise ASTNodeParentCollisionError(self, c, p)
